@@ -54,6 +54,18 @@ CHECKS = {
              "replaced by symbols. Bounded: mask tables of <= 3 (quick) / 5 (thorough) entries. Outside: motion with the Earth's "
              "rotation in inertial frames (rotation providers are C02).",
         ref="DESIGN.md section 3 C11", technique=TECH),
+    "C14": dict(
+        text="The real Cov.frame setter, Cov.copy and the covariance clause of StateVector.frame's setter run on typed stand-ins: "
+             "frames are symbolic integers, Orientation.convert_to / to_local return typed rotations, the covariance value and the "
+             "private state copy carry the frame they are expressed in. The solver explores every sequence of target frames "
+             "(10 built-in frames + QSW/TNW, attach frame any of the 7 non-rotating ones) up to the bound and every branch of the "
+             "setter, and proves that every matrix product is well typed, that M C M^T uses one M, that the result is expressed in "
+             "the requested frame and that QSW/TNW triads are built from the attach-frame state -- which, rotations forming a "
+             "groupoid, is exactly 'R C R^T with R depending only on the target'. Counterexample sequences are replayed on real "
+             "StateVector/Cov objects after every step.",
+        note="Trusted: z3; the groupoid law of frame rotations (C02). Bounded: sequences of <= 3 (quick) / 4 (thorough) targets. "
+             "Outside: eigenvalue preservation as a separate numeric statement.",
+        ref="DESIGN.md section 3 C14", technique="bounded symbolic execution of the real setter over typed frame indices; z3 decides every path's type obligations; replay on real objects"),
     "C16": dict(
         text="Every formula of ClohessyWiltshire._propagate/propagate and of the CWHelper maneuvers is executed symbolically "
              "(exact reals, cos/sin as a point on the unit circle) and the solver proves, for all n>0, all times, all initial "
